@@ -10,6 +10,8 @@ package c01
 
 import (
 	"os"
+	"runtime"
+	"strconv"
 	"strings"
 	"testing"
 	"time"
@@ -27,10 +29,19 @@ func only(name string) bool {
 }
 
 func sched(name string, q, t time.Duration) engine.Opts {
-	return engine.Opts{Name: name, Serial: true, Procs: 16, CrashTrace: true, Engine: "SCHED", MaxFails: 200, Budget: engine.Budget(q, t)}
+	return engine.Opts{Name: name, Serial: true, Procs: 16, CrashTrace: true, Engine: "SCHED", MaxFails: 100000, Budget: engine.Budget(q, t)}
 }
 
 func TestCheck(t *testing.T) {
+	if os.Getenv("VERIF_CHILD") != "" {
+		// worker process of a SCHED section: exactly one goroutine is runnable at any time under the cooperative
+		// scheduler, so one P is enough and makes every hand-off a plain goroutine switch instead of an OS thread wake-up
+		n := 1
+		if v, err := strconv.Atoi(os.Getenv("C01_GOMAXPROCS")); err == nil && v > 0 {
+			n = v
+		}
+		runtime.GOMAXPROCS(n)
+	}
 	engine.Rule("one execution = (protocol flavour, access structure, identifier assignment, key generation); inside it EVERY qualified quorum of >= 2 parties (minimal and non-minimal, from the reference truth table) x every message of the section's message list is one complete honest signing run (a counted case, keyed by flavour|structure|ids|keygen|quorum mask|message|api), followed by every unqualified party set of >= 2 parties (constructor refusal) and every unqualified sub-collection of the partial signatures (aggregator refusal). A case is non-trivial when the run produced a signature that went through the independent verifier.")
 	engine.Assume(
 		"independent verifiers: ref/sig BIP-340 (from the BIP text), generic Schnorr and ECDSA over ref/curve (math/big), crypto/ecdsa for P-256, BLS by definition sigma == [sk]*H(m) with sk reconstructed by ref/linalg from ALL dealt shares",
@@ -39,7 +50,7 @@ func TestCheck(t *testing.T) {
 		"session contexts come from the documented constructor session.NewContext with deterministic seeds; quorums of one party are outside the domain (session.NewContext refuses them)",
 		"one PRNG seed per run (engine.Seed), deterministic per-party streams; the library's internal errgroup fork-joins run sequentially (build overlay) so that runs are reproducible",
 		"runner API: default schedule and FIFO delivery (other schedules are C11's subject)",
-		"purego build; Paillier-based protocols use 1024-bit test keys (testing.Testing() gate)",
+		"purego build; Paillier-based protocols use test-size keys admitted under testing.Testing(): 1024 bits (Lindell17), 2048 bits (CGGMP21)",
 	)
 	structs := cheapCatalogue(true)
 	quickMsgs := func(kg proto.C01Keygen) []int {
@@ -55,9 +66,10 @@ func TestCheck(t *testing.T) {
 	}
 	if only("lindell22/rounds") {
 		leaves := l22Leaves(structs, func(f string, s *structure, a catalog.IDAssignment, kg proto.C01Keygen) []int { return quickMsgs(kg) })
-		engine.Explore(l22Body(apiRounds, leaves), engine.Opts{Name: "lindell22/rounds", MaxFails: 200, Budget: engine.Budget(8*time.Minute, 90*time.Minute)})
+		engine.Explore(l22Body(apiRounds, leaves), engine.Opts{Name: "lindell22/rounds", MaxFails: 100000, Budget: engine.Budget(12*time.Minute, 90*time.Minute)})
 	}
 	if only("lindell22/runner") {
+		crossed := map[string]bool{"thr(2,3)": true, "thr(3,4)": true, "cnf3{0|1|2}": true, "hier3[1:0 2:12]": true, "bool3:T1(T2(0,1),T2(0,2))": true}
 		leaves := l22Leaves(structs, func(f string, s *structure, a catalog.IDAssignment, kg proto.C01Keygen) []int {
 			switch {
 			case engine.Thorough() && kg == proto.C01Dealer:
@@ -68,18 +80,18 @@ func TestCheck(t *testing.T) {
 				return nil
 			case kg == proto.C01Dealer:
 				return []int{1}
-			case s.e.Name == "thr(2,3)" || s.e.Name == "bool3:T1(T2(0,1),T2(0,2))":
+			case a.Name == "ord" && crossed[s.e.Name]:
 				return []int{3}
 			}
 			return nil
 		})
-		engine.Explore(l22Body(apiRunner, leaves), sched("lindell22/runner", 8*time.Minute, 90*time.Minute))
+		engine.Explore(l22Body(apiRunner, leaves), sched("lindell22/runner", 12*time.Minute, 90*time.Minute))
 	}
 	if only("ecdsa") {
 		rounds, runner := ecSplit(ecCases())
-		engine.Explore(ecBody(rounds), engine.Opts{Name: "ecdsa/rounds", MaxFails: 200, Budget: engine.Budget(5*time.Minute, 60*time.Minute)})
+		engine.Explore(ecBody(rounds), engine.Opts{Name: "ecdsa/rounds", MaxFails: 100000, Budget: engine.Budget(12*time.Minute, 90*time.Minute)})
 		if len(runner) > 0 {
-			sec := engine.Explore(ecPaddedBody(runner), sched("ecdsa/runner", 5*time.Minute, 60*time.Minute))
+			sec := engine.Explore(ecPaddedBody(runner), sched("ecdsa/runner", 12*time.Minute, 90*time.Minute))
 			sec.Note("the single choice point is padded with empty slots (trivial executions) so that process sharding gives every long run its own worker process; non-trivial executions = %d runs", len(runner))
 		}
 	}
@@ -115,6 +127,6 @@ func TestCheck(t *testing.T) {
 			}
 			return nil
 		})
-		engine.Explore(blsBody(leaves), engine.Opts{Name: "boldyreva", MaxFails: 200, Budget: engine.Budget(8*time.Minute, 90*time.Minute)})
+		engine.Explore(blsBody(leaves), engine.Opts{Name: "boldyreva", MaxFails: 100000, Budget: engine.Budget(12*time.Minute, 90*time.Minute)})
 	}
 }
